@@ -4,38 +4,44 @@ use crate::compiler::dynamic_type::DynamicTypeItem;
 use crate::compiler::DataItem;
 use core::ops::Deref;
 
-/// native: every ordered pair of configured units at two amounts through the public API ('.' decimal separator)
+/// native: every ordered pair of configured units at two amounts through the public API, under both separator
+/// conventions: '.' decimal / ',' thousands, and the default configuration (',' decimal: amounts tagged @comma)
 #[cfg(not(kani))]
 pub fn d_dump_units() {
     use super::std;
-    let mut calc = crate::SmartCalc::default();
-    calc.set_decimal_seperator(".".to_string());
-    calc.set_thousand_separator(",".to_string());
-    let mut names: Vec<String> = Vec::new();
-    {
-        let cfg = crate::smartcalc::verif_k_local::config_of(&calc);
-        for (_, group) in cfg.types.iter() {
-            for (_, t) in group.iter() { names.push(t.names[0].clone()); }
+    for comma in [false, true].iter() {
+        let mut calc = crate::SmartCalc::default();
+        if !*comma {
+            calc.set_decimal_seperator(".".to_string());
+            calc.set_thousand_separator(",".to_string());
         }
-    }
-    for a in names.iter() {
-        for b in names.iter() {
-            for amount in ["1", "7.5"].iter() {
-                let line = alloc::format!("{} {} to {}", amount, a, b);
-                let r = calc.execute("en", line);
-                let mut out = String::from("ERR");
-                if let Some(Some(l)) = r.lines.get(0) {
-                    if let Ok(res) = &l.result {
-                        if let SmartCalcAstType::Item(item) = res.ast.deref() {
-                            if let Some(d) = item.as_any().downcast_ref::<DynamicTypeItem>() {
-                                if d.get_type().names.contains(b) {
-                                    out = alloc::format!("{:e}", d.get_number());
+        let mut names: Vec<String> = Vec::new();
+        {
+            let cfg = crate::smartcalc::verif_k_local::config_of(&calc);
+            for (_, group) in cfg.types.iter() {
+                for (_, t) in group.iter() { names.push(t.names[0].clone()); }
+            }
+        }
+        for a in names.iter() {
+            for b in names.iter() {
+                for amount in ["1", "7.5"].iter() {
+                    let written = if *comma { amount.replace('.', ",") } else { amount.to_string() };
+                    let line = alloc::format!("{} {} to {}", written, a, b);
+                    let r = calc.execute("en", line);
+                    let mut out = String::from("ERR");
+                    if let Some(Some(l)) = r.lines.get(0) {
+                        if let Ok(res) = &l.result {
+                            if let SmartCalcAstType::Item(item) = res.ast.deref() {
+                                if let Some(d) = item.as_any().downcast_ref::<DynamicTypeItem>() {
+                                    if d.get_type().names.contains(b) {
+                                        out = alloc::format!("{:e}", d.get_number());
+                                    }
                                 }
                             }
                         }
                     }
+                    std::println!("UNITS {} {} {}{} {}", a, b, amount, if *comma { "@comma" } else { "" }, out);
                 }
-                std::println!("UNITS {} {} {} {}", a, b, amount, out);
             }
         }
     }
